@@ -165,6 +165,12 @@ func (pc *parentController) syncRevisions(parent *unstructured.Unstructured, obs
 				pr.syncError = err
 				return
 			}
+			if syncResult == nil {
+				// Neither hook is enabled (hooks.sync is optional): there is no answer
+				// to roll out. Report it like the non-rolling path above does.
+				pr.syncError = fmt.Errorf("sync hook nil//not defined")
+				return
+			}
 			pr.syncResult = syncResult
 			pr.desiredChildMap = commonv1.MakeRelativeObjectMap(parent, syncResult.Children)
 		}(pr)
